@@ -617,7 +617,7 @@ non-trivial = the server accepted the filter and selected some but not all entri
         let f = LF::Or(vec![LF::Eq(ss("name"), ss("ab")), LF::Pres(ss("mail")), LF::And(vec![LF::Eq(ss("cn"), ss("zed"))])]);
         run_ldap(&mut rd, &mut sink, &f, lim, "_budget");
     }
-    let n_ldap = if args.thorough { 6000 } else { 900 };
+    let n_ldap = if args.thorough { 4500 } else { 900 };
     let maxd = if args.thorough { 4 } else { 3 };
     for _ in 0..n_ldap {
         let f = gen_ldap(&mut rng, &w, maxd, 3);
@@ -698,7 +698,7 @@ non-trivial = the server accepted the filter and selected some but not all entri
         );
         run_scim(&mut rd, &mut sink, &f, lim, "_budget");
     }
-    let n_scim = if args.thorough { 6000 } else { 900 };
+    let n_scim = if args.thorough { 4500 } else { 900 };
     for _ in 0..n_scim {
         let f = gen_scim(&mut rng, &w, maxd);
         let lim = if rng.chance(1, 6) { rng.range(1, 10) } else { 32 + rng.below(9) };
